@@ -203,6 +203,75 @@ def run(ctx):
             r3.bad('nested-scopes', 'has_conflict does not look into all scopes nested (at any depth) in the declaring scope: renaming a function to the name of a local variable of a caller makes the call bind to that variable (capture)', loc=fn.loc(0))
 
 
+    # (c) project scope: the table handed to the conflict test contains the declarations of the other files
+    rn = fx.fns.get(RN + 'rename')
+    r3.saw()
+    if rn is None:
+        r3.bad('anchor-missing|rename', 'rename not found')
+    else:
+        fr = F(rn)
+        hcs = fr.calls(lambda n: n == RN + 'has_conflict')
+        if not hcs:
+            r3.bad('project-scope', 'rename no longer calls has_conflict', loc=fr.loc(0))
+        for b, nm, t in hcs:
+            names = {o[2] for o in operand_origins(fr, t['a'][0], extra_pass=lambda n: re.search(r'Deref>::deref$|Arc<.*>::(as_ref|deref)$|AsRef', n) is not None) if o[0] == 'call'}
+            if any(n.endswith('::file_symbols_with_project') or n.endswith('::file_symbols_with_project_filtered') for n in names):
+                r3.ok('project-scope', loc=fr.loc(b))
+            else:
+                r3.bad('project-scope', 'the conflict test runs on %s, which lacks the declarations of the other files: renaming FUNCTION Foo to the name of a FUNCTION Bar declared in another file is accepted and leaves two declarations of Bar' % (sorted(n.split('::')[-1] for n in names) or ['an unknown table']), loc=fr.loc(b))
+
+    # ------------------------------------------------------------------ R4 identifier case
+    # IEC identifiers are case-insensitive; the reference search and the rename compare names with eq_ignore_ascii_case.
+    # Any case-sensitive comparison or text search with a string pattern there drops the occurrences spelled differently.
+    r4 = ctx.rule('C16.R4', 'names are matched case-insensitively: no case-sensitive string comparison or text search in the reference search and the rename', floor=5, floor_what='case-insensitive comparisons')
+    cs = re.compile(r'<impl str>::(contains|starts_with|ends_with|find|rfind|matches|match_indices|strip_prefix|strip_suffix|split)$|PartialEq<.*>>::(eq|ne)$|PartialEq>::(eq|ne)$|core::cmp::PartialEq::ne$')
+    n_ci = 0
+    for k in sorted(fx.fns):
+        if not (k.startswith('trust_ide::references::') or k.startswith(RN)) or '::tests::' in k:
+            continue
+        f4 = F(fx.fns[k])
+        for b, nm, t in f4.calls(lambda n: n.endswith('<impl str>::eq_ignore_ascii_case')):
+            n_ci += 1
+            r4.ok('ci|%s' % k[len('trust_ide::'):].split('::{closure')[0], loc=f4.loc(b))
+        for b, nm, t in f4.calls(lambda n: cs.search(n) is not None):
+            ga = ' '.join(t['f'].get('ga') or [])
+            textual = ('<impl str>::' in nm and 'char' not in ga.split(' ')[0:1] and not ga.startswith('char')) or (('PartialEq' in nm) and re.search(r'\bstr\b|String|SmolStr', nm + ' ' + ga) is not None)
+            if not textual:
+                continue
+            r4.saw()
+            short = k[len('trust_ide::'):].split('::{closure')[0]
+            r4.bad('case-sensitive|%s|%s' % (short, nm.split('::')[-1]), '%s compares or searches text case-sensitively (%s): occurrences of the name spelled in another case (legal in IEC 61131-3) are not found, so a rename leaves them behind' % (short, nm.split('::')[-1]), loc=f4.loc(b))
+    r4.saw(n_ci)
+
+    # ------------------------------------------------------------------ R5 the symbol under the cursor belongs to this file
+    # the project-augmented table holds symbols imported from other files with the text ranges of their home files; a
+    # lookup by range must therefore discriminate on Symbol.origin
+    r5 = ctx.rule('C16.R5', 'the symbol picked by its range at the cursor is one of this file: the by-range lookup reads Symbol.origin', floor=1)
+    RT = 'trust_ide::util::resolve_target_at_position_with_context'
+    rt = fx.fns.get(RT)
+    if rt is None:
+        r5.bad('anchor-missing|resolve_target_at_position_with_context', 'target resolution not found')
+    else:
+        bodies = [rt] + [fx.fns[c] for c in fx.closures_of(RT) if c in fx.fns]
+        r5.saw(len(bodies))
+        reads_range = any(any(f.endswith('Symbol.range') for ch in _reads(rec) for f in ch) for rec in bodies)
+        reads_origin = any(any(f.endswith('Symbol.origin') for ch in _reads(rec) for f in ch) for rec in bodies)
+        by_range_callees = []
+        for rec in bodies:
+            f5 = F(rec)
+            for b, nm, t in f5.calls(lambda n: n.startswith('trust_ide::') and n in fx.fns and n != RT):
+                cr = [fx.fns[nm]] + [fx.fns[c] for c in fx.closures_of(nm) if c in fx.fns]
+                if any(any(f.endswith('Symbol.range') for ch in _reads(r_) for f in ch) for r_ in cr) and re.search(r'at_range|by_range', nm):
+                    by_range_callees.append((f5, b, nm, any(any(f.endswith('Symbol.origin') for ch in _reads(r_) for f in ch) for r_ in cr)))
+        blind = [x for x in by_range_callees if not x[3]]
+        if blind:
+            f5, b, nm, _ = blind[0]
+            r5.bad('by-range-origin', 'the symbol at the cursor is looked up with %s, which matches the text range only: a symbol imported from another file with the same offsets can be picked, and the rename then edits that other declaration' % nm.split('::')[-1], loc=f5.loc(b))
+        elif reads_range and reads_origin:
+            r5.ok('by-range-origin')
+        else:
+            r5.bad('by-range-origin', 'the by-range symbol lookup of the target resolution does not look at Symbol.origin (shape not recognised)', loc='%s:%d' % (rt['file'], rt['line']))
+
 def _reads(rec):
     from ..cg import field_reads
     return field_reads(rec)
